@@ -72,9 +72,9 @@ def make_cfg(ctx, base, invariants, props=("TermDurableMonotone",), name="run.cf
     return p
 
 
-def replay(ctx, binp, runs, label, timeout="2s"):
+def replay(ctx, binp, runs, label, timeout="2s", env=None):
     out = os.path.join(ctx.scratch, "replay-%s.json" % label)
-    ctx.run([binp, "replay", "-in", runs, "-out", out, "-timeout", timeout, "-workers", str(max(2, ctx.cores - 2))])
+    ctx.run([binp, "replay", "-in", runs, "-out", out, "-timeout", timeout, "-workers", str(max(2, ctx.cores - 2))], env=env)
     res = json.load(open(out))
     import glob
     res["nodetraces"] = sorted(glob.glob(out + ".nodetrace.*"))
@@ -683,6 +683,13 @@ def run(ctx, pid):
         reached |= findings_reached(ctx, pid, wruns, wres, "witness")
         if pid == "C02":
             linearizable(ctx, wres, "witness")
+        if pid in ("C04", "C01", "C03"):
+            # the same witnesses on a slow disk: a sync round that is pending when NewTerm arrives stalls for
+            # 2.5 s (6 s in the thorough tier); the handler has to wait for it and still report the end of its log
+            env = dict(os.environ)
+            env["VERIF_SLOWSYNC"] = "2500ms" if quick else "6s"
+            sres = replay(ctx, binp, wruns, "witness-slowdisk", timeout="4s", env=env)
+            other += report(ctx, pid, sres, "witness-slowdisk")
         ctx.notes["known_findings_reproduced"] = sorted(reached)
         # ... and random continuations from the states the witnesses reach
         cruns = os.path.join(ctx.scratch, "wsim.ndjson")
